@@ -185,7 +185,12 @@ func (fc *FnCtx) havocEffects(st *State, eff *effSet, callee string) {
 		}
 	}
 	sort.Strings(fks)
+	closed := false
 	for _, k := range fks {
+		if srt, ok := fc.keySort[k]; ok && strings.HasPrefix(srt, "(Array Ref ") && !closed && !fc.pureMode {
+			fc.assumeClosedHeap(st)
+			closed = true
+		}
 		srt, ok := fc.keySort[k]
 		if !ok || !strings.HasPrefix(srt, "(Array Ref ") {
 			continue
@@ -195,7 +200,7 @@ func (fc *FnCtx) havocEffects(st *State, eff *effSet, callee string) {
 		nv := tb.Fresh("hf!"+k, srt)
 		al := fc.heapGet(st, "alloc", ArraySort("Ref", "Bool"))
 		r := tb.BoundVar("r", "Ref")
-		fc.assume(st, tb.Quant(true, []*Term{r}, tb.Implies(tb.Select(al, r), tb.Eq(tb.Select(nv, r), tb.Select(old, r))), tb.Select(nv, r)))
+		fc.assume(st, tb.Quant(true, []*Term{r}, tb.Implies(tb.Select(al, fc.objBase(r)), tb.Eq(tb.Select(nv, r), tb.Select(old, r))), tb.Select(nv, r)))
 		st.heap[k] = nv
 	}
 }
@@ -351,7 +356,7 @@ func (fc *FnCtx) builtin(name string, c *ssa.CallCommon, args []Val, st *State) 
 		case *types.Slice:
 			return tb.App("s_len", "Int", x)
 		case *types.Map:
-			cd := tb.Ite(tb.Eq(x, tb.Const("null", "Ref")), tb.Int(0), fc.mapCard(st, x))
+			cd := tb.Ite(tb.Eq(x, tb.Const("null", "Ref")), tb.Int(0), fc.mapCard(st, t, x))
 			fc.assume(st, tb.Ge(cd, tb.Int(0)))
 			return cd
 		case *types.Array:
